@@ -3,7 +3,7 @@ From Coq Require Import String List ZArith Bool.
 From TT Require Import Base.Outcome Base.Str Base.F64 Base.GoParse
      Trackaddict.Units Trackaddict.Columns Proofs.C10_proofs.
 Import ListNotations.
-Open Scope string_scope.
+Local Open Scope string_scope.
 
 (* Every one of the nine dual-unit quantities: the imperial header and the metric header
    target the same record field; the metric column stores the parsed number unchanged and
